@@ -60,6 +60,11 @@ macro_rules! g_uint {
                     3 => <$t>::MAX - 1,
                     4 => (src.byte() as $t),
                     5 => (<$t>::MAX / 2).wrapping_add(src.below(3) as $t),
+                    6 => {
+                        // boundaries of the narrower widths (they matter for wider types)
+                        let b = *src.pick(&[u8::MAX as u128, u16::MAX as u128, u32::MAX as u128, u64::MAX as u128, i8::MAX as u128, i16::MAX as u128, i32::MAX as u128, i64::MAX as u128, 1u128 << 53]);
+                        b.wrapping_add(src.below(3) as u128).wrapping_sub(1) as $t
+                    }
                     _ => {
                         let bits = src.below(<$t>::BITS as usize + 1) as u32;
                         if bits == 0 { 0 } else { (((src.u64() as u128) << 64 | src.u64() as u128) >> (128 - bits)) as $t }
@@ -80,6 +85,10 @@ macro_rules! g_int {
                     2 => <$t>::MIN,
                     3 => <$t>::MAX,
                     4 => <$t>::MIN + 1,
+                    5 => {
+                        let b = *src.pick(&[i8::MIN as i128, i16::MIN as i128, i32::MIN as i128, i64::MIN as i128, u64::MAX as i128, i64::MAX as i128, u32::MAX as i128]);
+                        b.wrapping_add(src.below(3) as i128).wrapping_sub(1) as $t
+                    }
                     _ => <$u as G>::g(src, d) as $t,
                 }
             }
